@@ -78,12 +78,14 @@ type G struct {
 var (
 	tinyInts   = []int64{0, 1, 2, 3, -1}
 	tinyUints  = []uint64{0, 1, 2, 3}
-	tinyFloats = []float64{0, 1, 0.5, 2, -1}
+	tinyFloats = []float64{0, 1, 0.5, 2, -1, math.Copysign(0, -1)}
 	tinyStrs   = []string{"", "a", "b", "A", "ab", "Ab", "aB", "B"}
 	caseStrs   = []string{"ß", "ı", "İ", "ǅ", "ς", "ſ", "K", "Σ", "straße", "ǆ", "é", "É", "ÿ", "Ÿ", "ⅰ", "Ⅰ", "aßc", "İi",
 		// long ones (implementations may treat long strings differently, e.g. memoise conversions)
 		"The Quick Brown Fox Jumps Over The Lazy Dog 0123456789", "the quick brown fox jumps over the lazy dog 0123456789",
-		"Η Γρήγορη Καφέ Αλεπού Πηδά Πάνω Από Τον Τεμπέλη Σκύλο"}
+		"Η Γρήγορη Καφέ Αλεπού Πηδά Πάνω Από Τον Τεμπέλη Σκύλο",
+		// bytes every JSON encoder has to escape (and Go string syntax escapes differently)
+		"a\x1fb", "tab\there", "\x00", "\x7f", "line\nbreak", "\u2028x", "quote\"back\\slash", "<b>&amp;</b>", "\u00a0"}
 	bigInts   = []int64{math.MaxInt64, math.MinInt64, 1 << 53, 1<<53 + 1, 1<<53 - 1, -(1 << 53) - 1, math.MaxInt64 - 1, math.MinInt64 + 1, 1 << 62, 1577836800123456789}
 	bigUints  = []uint64{math.MaxUint64, math.MaxUint64 - 1, 1 << 53, 1<<53 + 1, 1 << 63, 1<<63 + 1, math.MaxInt64}
 	bigFloats = []float64{math.MaxFloat64, -math.MaxFloat64, math.SmallestNonzeroFloat64, 1 << 53, 1<<53 + 2, math.Copysign(0, -1), 1e21, 1e-7, 0.1, 1.0 / 3}
@@ -430,6 +432,9 @@ func (g *G) Doc() *Doc {
 		d.B = g.pct("b") < 50
 		d.Arr = [3]int{int(g.Int(32)), 0, int(g.Int(8))}
 	}
+	if (g.cfg.Cons["Any"] != Cons{}) && g.pct("anystr") < 70 {
+		d.Any = pickU(g, append(append([]string{}, tinyStrs...), caseStrs[:18]...), "anystrv")
+	}
 	if g.pct("hook") < g.p.HookBias {
 		switch rapid.IntRange(0, 3).Draw(g.t, "hookkind") {
 		case 0:
@@ -552,6 +557,14 @@ func (g *G) Config() Config {
 		}
 		c.Cons[pi.Path] = k
 	}
+	// an interface{} field that holds a string is case-canonicalised as well
+	if p.CasePaths > 0 && g.pct("caseany") < 15 {
+		if g.pct("caseanyup") < 50 {
+			c.Cons["Any"] = Cons{Upper: true}
+		} else {
+			c.Cons["Any"] = Cons{Lower: true}
+		}
+	}
 	return c
 }
 
@@ -579,9 +592,32 @@ func (g *G) Leaf(conn string) Leaf {
 	}
 	v := g.Probe(p)
 	if op == "~=" {
-		v = Val{K: "s", S: pickU(g, []string{"a", "^a", "b$", ".*", "^$", "[aA]", "A+", "a|b", "^(a|A)b?$", "x"}, "regex")}
+		v = Val{K: "s", S: g.regex()}
 	}
 	return Leaf{Conn: conn, Path: p.Path, Op: op, V: v}
+}
+
+// regex: half of the time a fixed pattern, otherwise one built from a small grammar (anchors,
+// literals, classes, groups, alternation, counted and uncounted repetition) - always valid RE2.
+func (g *G) regex() string {
+	if g.pct("regexfixed") < 45 {
+		return pickU(g, []string{"a", "^a", "b$", ".*", "^$", "[aA]", "A+", "a|b", "^(a|A)b?$", "x"}, "regex")
+	}
+	out := ""
+	if g.pct("regexfold") < 10 {
+		out = "(?i)"
+	}
+	if g.pct("regexhat") < 60 {
+		out += "^"
+	}
+	for i, n := 0, 1+g.uni(3, "regexn"); i < n; i++ {
+		out += pickU(g, []string{"a", "b", "A", "B", "a", "b", ".", "[ab]", "(ab)", "(a|b)", "x", "ß"}, "regexatom")
+		out += pickU(g, []string{"", "", "", "*", "?", "+", "{0,2}", "{0}", "{1,2}", "{2}", "*?"}, "regexquant")
+	}
+	if g.pct("regexdollar") < 40 {
+		out += "$"
+	}
+	return out
 }
 
 func (g *G) Query() *Query {
@@ -751,12 +787,14 @@ func (g *G) Op() Op {
 	case "coldUpdate":
 		op.Ref = g.uni(64, "ref")
 		op.Sets = g.Sets()
+	case "crashRepair":
+		op.Ref = g.uni(64, "ref")
 	case "tick":
 		op.Ms = 100 * (1 + g.uni(12, "tickms"))
 	case "snapshot":
 		q := g.Query()
 		q.Limit, q.Reverse = nil, false
-		q.Consumer = pickU(g, []string{"collect", "assign"}, "snapconsumer")
+		q.Consumer = pickU(g, []string{"collect", "collect", "assign", "assign", "delete"}, "snapconsumer")
 		shape := g.pct("snapshape")
 		switch {
 		case shape < 22:
